@@ -90,6 +90,25 @@ func (b *WriteBuffer) Drain() []RecordBatch {
 	return drained
 }
 
+// Prepend puts batches back at the head of the buffer, ahead of anything appended
+// since they were drained. It is used when a flush fails after Drain so the drained
+// batches are retried by the next flush instead of being lost.
+func (b *WriteBuffer) Prepend(batches []RecordBatch) {
+	if len(batches) == 0 {
+		return
+	}
+	b.mu.Lock()
+	defer b.mu.Unlock()
+	restored := make([]RecordBatch, 0, len(batches)+len(b.batches))
+	restored = append(restored, batches...)
+	restored = append(restored, b.batches...)
+	b.batches = restored
+	for _, batch := range batches {
+		b.sizeBytes += len(batch.Bytes)
+		b.messageCount += int(batch.MessageCount)
+	}
+}
+
 // RecordsFrom returns the raw bytes of buffered batches needed to serve a read
 // starting at offset, concatenated, non-destructively. A batch is included when
 // its last offset (BaseOffset+LastOffsetDelta) is >= offset, i.e. the batch that
